@@ -34,6 +34,13 @@ pub const POSIX: &[&str] = &[
     "EST5EDT,M3.2.0,M11.1.0/-1",
     "XYZ-3",
     "XYZ3:00:01",
+    // Transitions at or around midnight: the gap or fold spills over into
+    // the neighbouring civil day.
+    "EET-2EEST,M3.5.0/0,M10.5.0/0",
+    "<-02>2<-01>,M3.5.0/-1,M10.5.0/0",
+    "<-04>4<-03>,M10.1.0/0,M3.4.0/0",
+    "AAA1BBB,M3.2.0/23:30,M11.1.0/0:15",
+    "CCC-1DDD-3,M3.5.0/23,M10.5.0/25",
 ];
 
 pub const N_STATIC: u8 = 3;
@@ -160,6 +167,12 @@ pub enum Op {
     TzMake { src: u8, dst: u8, which: u8, t: u8 },
     /// One of `N_AMB_OPS` consuming APIs of `AmbiguousZoned`.
     AmbOp { src: u8, dst: u8, which: u8 },
+    /// `BrokenDownTime::from(&zoned)`: an owned value *derived* from the
+    /// zoned datetime. It holds no handle; it must stay usable (and right)
+    /// after every handle of the zone is gone.
+    MakeDerived { src: u8, dst: u8 },
+    /// Uses a derived value: IANA name, offset, formatting with `%Q %Z %z`.
+    UseDerived { slot: u8 },
     /// `database.get(name)` (in one of four ASCII-case spellings): the
     /// database hands out a clone of the handle in its cache.
     DbGet { dst: u8, name: u8, case: u8 },
@@ -199,6 +212,8 @@ impl Op {
             Op::ZonedSpanRel { .. } => "zoned_span_rel",
             Op::TzMake { .. } => "tz_make",
             Op::AmbOp { .. } => "amb_op",
+            Op::MakeDerived { .. } => "make_derived",
+            Op::UseDerived { .. } => "use_derived",
             Op::DbGet { .. } => "db_get",
             Op::DbReset => "db_reset",
             Op::DbAdvance { .. } => "db_advance",
@@ -291,7 +306,7 @@ pub fn generate(rng: &mut Rng, thorough: bool) -> Case {
                 w_new, 16, 12, 6, 8, 14, w_zoned, w_zoned / 2, w_zoned / 2, w_zoned / 2,
                 w_zoned / 2, w_zoned / 2, w_send, w_send, w_shared, w_crash,
                 w_zoned, w_zoned, w_zoned / 3, w_zoned / 2, w_zoned / 2, w_zoned, w_zoned / 3,
-                w_zoned / 2, w_db, w_db / 5, w_db / 2, w_db / 5,
+                w_zoned / 2, w_db, w_db / 5, w_db / 2, w_db / 5, w_zoned / 2, w_zoned / 2,
             ]) {
                 0 => {
                     let dst = slot(rng);
@@ -422,7 +437,16 @@ pub fn generate(rng: &mut Rng, thorough: bool) -> Case {
                 }
                 25 => Op::DbReset,
                 26 => Op::DbAdvance { step: rng.below(4) as u8 },
-                _ => Op::DbTouch { name: rng.below(DB_NAMES.len() as u64) as u8 },
+                27 => Op::DbTouch { name: rng.below(DB_NAMES.len() as u64) as u8 },
+                28 => {
+                    let src = full(rng, &occ);
+                    let dst = slot(rng);
+                    if occ[src as usize] {
+                        occ[dst as usize] = true;
+                    }
+                    Op::MakeDerived { src, dst }
+                }
+                _ => Op::UseDerived { slot: full(rng, &occ) },
             };
             let crash = op == Op::Crash;
             ops.push(op);
